@@ -527,9 +527,23 @@ impl<'a> TypeHumanizer<'a> {
     // ─── Array ──────────────────────────────────────────────────────
 
     fn write_array_type<W: Write>(&mut self, inner: &LuaType, w: &mut W) -> fmt::Result {
+        // In the annotation grammar `T?[]` is not an array (the `[]` after `?` is dropped) and
+        // `-1[]` negates `1[]`, so these element types need their own parentheses.
+        let needs_parens = match inner {
+            LuaType::Union(u) => u.into_vec().iter().any(|t| t.is_nil()),
+            LuaType::IntegerConst(i) | LuaType::DocIntegerConst(i) => *i < 0,
+            LuaType::FloatConst(f) => *f < 0.0,
+            _ => false,
+        };
         let saved = self.level;
         self.level = self.child_level();
+        if needs_parens {
+            w.write_char('(')?;
+        }
         self.write_type(inner, w)?;
+        if needs_parens {
+            w.write_char(')')?;
+        }
         self.level = saved;
         w.write_str("[]")
     }
